@@ -128,71 +128,124 @@ func (w *vdFWriter) SetLocalPath(string) error    { return nil }
 
 func (b *vdFaultBucket) SetExternalAndLocalPathsSupported() bool { return false }
 
-// stub storageos.Provider: hands out the fault bucket for the output directory and records when it is asked
+// stub storageos.Provider: one fault bucket per output directory; records the order in which directories are opened
 type vdProvider struct {
 	storageos.Provider
-	bucket   *vdFaultBucket
-	calls    int
-	rootPath string
-	fail     bool
+	buckets   map[string]*vdFaultBucket
+	failOpen  map[string]bool
+	opened    []string
+	anyFailed bool
 }
 
 func (p *vdProvider) NewReadWriteBucket(rootPath string, _ ...storageos.ReadWriteBucketOption) (storage.ReadWriteBucket, error) {
-	p.calls++
-	p.rootPath = rootPath
-	if p.fail {
-		p.bucket.faulted = true
+	p.opened = append(p.opened, rootPath)
+	if p.failOpen[rootPath] {
+		p.anyFailed = true
 		return nil, vdErrInjected
 	}
-	return p.bucket, nil
+	b := p.buckets[rootPath]
+	if b == nil {
+		return nil, errors.New("vd: unknown output directory")
+	}
+	return b, nil
 }
 
-// VerifLemma_C15D_ResponseWriterFlush: plugin responses (1..FILES generated files with symbolic contents, delivered in
-// one or two AddResponse calls for the same output directory) are staged in memory: AddResponse never touches the disk
-// bucket provider. Close flushes through storage.Copy into the provider's bucket, whose k-th (l-th) Put/Write/Close fails
-// (or the provider itself fails): (1) a failure seen by the code makes Close return an error; (2) Close()==nil
-// implies every generated file is in the output bucket with its exact content; (3) every writer is closed.
+// VerifLemma_C15D_ResponseWriterFlush: 1..OUTS distinct output directories. The first directory receives 1..FILES
+// generated files (symbolic contents) in one or two AddResponse calls, every further directory one file. AddResponse
+// stages in memory and never touches the provider. Close flushes directory by directory (in the order the directories
+// were first used) through storage.Copy into that directory's bucket; per directory the provider may fail or the k-th
+// Put/Write/Close may fail (nondet subset of failing directories, any position).
+//  (1) Close returns an error iff the flush of some directory it attempted failed - in particular a later successful
+//      flush never hides an earlier failure;  (2) documented stop-at-first-error contract: directories before the first
+//      failing one are completely written, directories after it are not attempted;  (3) Close()==nil implies every file
+//      of every directory is in its bucket with its exact content;  (4) every writer is closed.
 func VerifLemma_C15D_ResponseWriterFlush() {
 	thread.SetParallelism(verifNondetChoice(2) + 1)
+	outs := verifNondetChoice(verifParam("OUTS")) + 1
+	dirs := []string{"/out/gen", "/out/other", "/third"}[:outs]
 	names := []string{"a.pb.go", "sub/b.pb.go", "c.txt"}
-	n := verifNondetChoice(verifParam("FILES")) + 1
-	contents := make([]string, n)
-	var files []*pluginpb.CodeGeneratorResponse_File
-	for i := 0; i < n; i++ {
-		name, content := names[i], verifNondetString(verifParam("DATA"))
-		contents[i] = content
-		files = append(files, &pluginpb.CodeGeneratorResponse_File{Name: &name, Content: &content})
-	}
-	split := n
-	if n > 1 && verifNondetBool() {
-		split = 1 // two plugins writing into the same out directory
-	}
-	dst := &vdFaultBucket{failAt: verifNondetInt(0, 3*n), short: verifNondetBool()}
-	if verifParam("DOUBLE") == 1 {
-		dst.failAt2 = verifNondetInt(0, 3*n)
-		verifAssume(dst.failAt2 == 0 || dst.failAt2 > dst.failAt)
-	}
-	provider := &vdProvider{bucket: dst, fail: verifNondetBool()}
+	n0 := verifNondetChoice(verifParam("FILES")) + 1 // files of the first directory
+	provider := &vdProvider{buckets: map[string]*vdFaultBucket{}, failOpen: map[string]bool{}}
 	w := newResponseWriter(slog.Default(), provider)
 	ctx := context.Background()
-	err := w.AddResponse(ctx, &pluginpb.CodeGeneratorResponse{File: files[:split]}, "/out/gen")
-	verifAssert(err == nil, "AddResponse of plain files succeeds")
-	if split < n {
-		err = w.AddResponse(ctx, &pluginpb.CodeGeneratorResponse{File: files[split:]}, "/out/gen")
-		verifAssert(err == nil, "second AddResponse into the same directory succeeds")
+	type vdGen struct{ dir, name, content string }
+	var gens []vdGen
+	add := func(dir string, fileNames []string) {
+		var files []*pluginpb.CodeGeneratorResponse_File
+		for _, fileName := range fileNames {
+			name, content := fileName, verifNondetString(verifParam("DATA"))
+			gens = append(gens, vdGen{dir, name, content})
+			files = append(files, &pluginpb.CodeGeneratorResponse_File{Name: &name, Content: &content})
+		}
+		err := w.AddResponse(ctx, &pluginpb.CodeGeneratorResponse{File: files}, dir)
+		verifAssert(err == nil, "AddResponse of plain files succeeds")
 	}
-	verifAssert(provider.calls == 0 && dst.ops == 0, "AddResponse stages in memory and touches no disk bucket")
-	err = w.Close()
+	split := n0
+	if n0 > 1 && verifNondetBool() {
+		split = 1 // two plugins writing into the same out directory
+	}
+	add(dirs[0], names[:split])
+	for d := 1; d < outs; d++ {
+		add(dirs[d], names[d:d+1])
+	}
+	if split < n0 {
+		add(dirs[0], names[split:n0])
+	}
+	// fault plan per directory: provider failure, or the k-th bucket operation (0 = none)
+	filesOf := func(dir string) int {
+		k := 0
+		for _, g := range gens {
+			if g.dir == dir {
+				k++
+			}
+		}
+		return k
+	}
+	for _, dir := range dirs {
+		b := &vdFaultBucket{failAt: verifNondetInt(0, 3*filesOf(dir)), short: verifNondetBool()}
+		if verifParam("DOUBLE") == 1 {
+			b.failAt2 = verifNondetInt(0, 3*filesOf(dir))
+			verifAssume(b.failAt2 == 0 || b.failAt2 > b.failAt)
+		}
+		provider.buckets[dir] = b
+		provider.failOpen[dir] = verifNondetBool()
+	}
+	verifAssert(len(provider.opened) == 0, "AddResponse stages in memory and touches no disk bucket")
+	err := w.Close()
 	verifCover("closed")
-	verifAssert(provider.calls == 1 && provider.rootPath == "/out/gen", "Close opens the output directory bucket once")
-	verifAssert(!dst.faulted || err != nil, "Close: an injected flush failure seen by the code is reported")
-	verifAssert(dst.open == 0, "Close: every opened writer is closed")
+	// which directories were attempted, and did any attempted flush fail?
+	firstFailed := -1
+	for i, dir := range dirs {
+		if i < len(provider.opened) {
+			verifAssert(provider.opened[i] == dir, "Close flushes the directories in the order they were first used")
+		}
+		failed := provider.failOpen[dir] || provider.buckets[dir].faulted
+		if i < len(provider.opened) && failed && firstFailed < 0 {
+			firstFailed = i
+		}
+		verifAssert(provider.buckets[dir].open == 0, "Close: every opened writer is closed")
+	}
+	verifAssert((err != nil) == (firstFailed >= 0), "Close returns an error iff a flush it attempted failed (a later success never hides an earlier failure)")
+	if firstFailed >= 0 {
+		verifCover("some flush failed")
+		verifAssert(len(provider.opened) == firstFailed+1, "Close stops at the first failing directory: later directories are not attempted")
+	} else {
+		verifAssert(len(provider.opened) == outs, "without a failure every directory is flushed")
+	}
+	for i, dir := range dirs {
+		if firstFailed >= 0 && i >= firstFailed {
+			break
+		}
+		// completely flushed directory
+		for _, g := range gens {
+			if g.dir == dir {
+				o := provider.buckets[dir].find(g.name)
+				verifAssert(o != nil && bytes.Equal(o.data, []byte(g.content)), "a directory flushed without failure holds every generated file with its exact content")
+			}
+		}
+		verifAssert(len(provider.buckets[dir].objs) == filesOf(dir), "a flushed directory holds exactly its generated files")
+	}
 	if err == nil {
 		verifCover("flushed")
-		verifAssert(len(dst.objs) == n, "Close()==nil implies every generated file was written")
-		for i := 0; i < n; i++ {
-			o := dst.find(names[i])
-			verifAssert(o != nil && bytes.Equal(o.data, []byte(contents[i])), "Close()==nil implies each file has its exact content")
-		}
 	}
 }
